@@ -85,6 +85,11 @@ CLAIMED = {
     text='fallback_total, other_failures_fall_back, remote_only_without_failure, cleanup_complete and exit_status_roundtrip (all codes 0..255, after the fix of F-C13-a) are proved; the real dist_or_local_compile is driven by an own dist::Client failing at every stage with every error class (20 cases, exhaustive over the model alphabet), and a real server with dist configured is run against a missing scheduler, a real scheduler without capacity and a wrong token. Partial: no real build server can run here (no bubblewrap/docker); the remote argument vector is not modelled.',
     note='Trusted: Lean kernel, Model/Dist.lean (tied by h_dist). F-C13-a was a genuine defect repaired by a fix: commit.',
     ref='DESIGN.md section 4 C13, Appendix B.8'),
+
+ 'C10': dict(technique='Lean 4 proof (the inode-level two-phase-store invariant of C06 read for output extraction: every interleaving of extraction and reader steps) + differential correspondence of the real extract_objects expressed as model actions + descriptor/inode/hard-link monitors',
+    text='reader_sees_whole and outputs_always_complete hold in every interleaving of any number of extractions and readers; partial_failure_clean shows that a member failing part-way leaves every output path bound as before and no temporary name. The real CacheRead::extract_objects is run over existing outputs with descriptors opened beforehand, hard links and corrupt/missing later members, its effect is replayed on the model, and the real binary is observed restoring a path while a reader is in the middle of the old file.',
+    note='Trusted: Lean kernel, Model/Atomic.lean (tied by h_extract and h_atomic), POSIX rename semantics.',
+    ref='DESIGN.md section 4 C10, Appendix A.5, B.2'),
 }
 NA_REASON = 'not yet wired into ./check in this round (model and theorems exist under lean/; see DESIGN.md section 0.1)'
 def hooks():
